@@ -133,6 +133,9 @@ func c12NameTab(ic bool, pat string) string {
 }
 
 func c12Run(f []string) string {
+	if res, ok := c12RunExt(f); ok {
+		return res
+	}
 	switch f[0] {
 	case "grammar":
 		return c12Grammar(string(UnHex(f[1])))
@@ -426,6 +429,7 @@ func c12Gen(r *Rand, tier string) []string {
 			out = append(out, fmt.Sprintf("%s %s %s %s %d", op, icS, HexS(p.render()), HexList(lines), rep))
 		}
 	}
+	out = append(out, c12GenExt(r, tier)...)
 	if tier == "thorough" {
 		// exhaustive: every pattern text over {%,{,},a,?} up to length 6, both modes, fixed lines
 		lines := HexListS([]string{"a", "aa", "", "%a}", "a?a{a"})
@@ -491,6 +495,9 @@ func c12Stats(cases []string) map[string]int {
 	st := map[string]int{}
 	for _, c := range cases {
 		f := strings.Fields(c)
+		if c12StatsExt(f, st) {
+			continue
+		}
 		st["op."+f[0]]++
 		if f[0] == "grammar" || f[0] == "nametab" {
 			pat := string(UnHex(f[len(f)-1]))
@@ -599,5 +606,5 @@ func c12Corpus() []string {
 }
 
 func init() {
-	Register("C12", &Prop{Gen: c12Gen, Run: c12Run, Stats: c12Stats, Corpus: c12Corpus()})
+	Register("C12", &Prop{Gen: c12Gen, Run: c12Run, Stats: c12Stats, Corpus: append(c12Corpus(), c12CorpusExt()...)})
 }
